@@ -299,6 +299,35 @@ def check_stepper(name, cls, mon, viol, rng):
         else:
             mon['rejected_at_' + stage] = mon.get('rejected_at_' + stage,
                                                   0) + 1
+    # two arrays stepped by the same class, the incomplete one named first
+    # (or last): each array has to be checked, not each stepper class
+    cands = [n_ for n_ in sorted(need) if n_ not in BASE]
+    if cands:
+        n_ = cands[int(rng.integers(len(cands)))]
+        for first_incomplete in (True, False):
+            pa1 = make_array('dest', need - ({n_} if first_incomplete
+                                             else set()))
+            pa2 = make_array('dest2', need - (set() if first_incomplete
+                                              else {n_}))
+            for pa_ in (pa1, pa2):
+                pa_.add_property('zz_more')
+            integ = Integrator(dest=ec.instantiate(cls),
+                               dest2=ec.instantiate(cls))
+            stage, exc = stages([pa1, pa2],
+                                [Nothing(dest='dest', sources=None)], integ)
+            nf += 1
+            mon['faults_stepper'] = mon.get('faults_stepper', 0) + 1
+            r = judge(stage, exc, cls.__name__, n_, 'stepper-shared-class')
+            if r:
+                if sum(1 for v in viol if v['key'] == r[0]) < 3:
+                    viol.append(dict(
+                        key=r[0], what='%s on two arrays, property %r '
+                        'removed from the %s one: %s' % (
+                            name, n_, 'first' if first_incomplete else
+                            'second', r[1]),
+                        case=dict(stepper=name, name=n_,
+                                  first=first_incomplete)))
+                mon['violating_faults'] = mon.get('violating_faults', 0) + 1
     stage, exc = build(key='dset')
     nf += 1
     mon['faults_misspelt'] = mon.get('faults_misspelt', 0) + 1
